@@ -11,6 +11,7 @@ import (
 	"crypto/x509"
 	"encoding/json"
 	"fmt"
+	"math/big"
 	mrand "math/rand"
 	"sort"
 	"strings"
@@ -310,11 +311,19 @@ func c19unit(e common.Env, p *common.Part, kind string, nts []nt, reps int) {
 			if kind == "ecdsa" {
 				// leading zeros and digests longer than the curve order (SHA-384 / SHA-512 sized)
 				digs = [][]byte{digs[0], digs[1], digs[7], append(append([]byte{}, digs[0]...), digs[5][:16]...)}
+				// 32-byte digests that are numerically at or above the curve's group order / field prime (2^256-1, and the field
+				// prime of P-256 itself): the library may refuse them, but a signature that comes back is one for THAT digest
+				pprime, _ := new(big.Int).SetString("ffffffff00000001000000000000000000000000ffffffffffffffffffffffff", 16)
+				digs = append(digs, bytes.Repeat([]byte{0xff}, 32), pprime.Bytes())
 			}
 			for di, d := range digs {
 				signers := pickSigners(rng, ids, x.t+1)
 				must := len(d) > 0 // an empty digest may legitimately be refused
-				signAndCheck(w, p, fmt.Sprintf("%s digest#%d (%d bytes) signers=%v", label, di, len(d), signers), shares, tpk, signers, sameDigest(signers, d), must, 60*time.Second)
+				to := 60 * time.Second
+				if kind == "ecdsa" && di >= 4 {
+					must, to = false, 6*time.Second // out-of-range digests: refusal (also by running into the deadline) is fine
+				}
+				signAndCheck(w, p, fmt.Sprintf("%s digest#%d (%d bytes) signers=%v", label, di, len(d), signers), shares, tpk, signers, sameDigest(signers, d), must, to)
 				p.Case(fmt.Sprintf("%s digest#%d", label, di), true)
 				if di == 0 {
 					classificationOracle(w, p, label)
